@@ -263,7 +263,7 @@ pub fn check_case(ctx: &Ctx, n: u64, pv: &ProjView, config_text: &str) -> Option
 pub fn run(ctx: &Ctx, rep: &mut Report) {
     crate::gen_syntax::set_allow_block(false);
     rep.note("feature mask: no block strings (C07 owns their defect); association of a declared identifier with its definition goes through the emitted source map (C06 owns its validity)");
-    let n = ctx.budget(160, 4000);
+    let n = ctx.budget(2_400, 48_000);
     let mut tot = CaseStats { files: 0, declared: 0, defaults: 0, associated: 0 };
     for case in 0..n {
         let mut rng = ctx.rng("c14", case);
